@@ -32,7 +32,7 @@ def run_one(name, tier):
             os.makedirs(ev, exist_ok=True)
             env["VERIF_EVIDENCE_DIR"] = ev
             env["VERIF_REPLAY_DIR"] = ev
-            p = subprocess.run([os.path.join(VERIF, "bin", "check"), chk, "--tier", tier], env=env, capture_output=True, text=True, timeout=7200)
+            p = subprocess.run([os.path.join(VERIF, "bin", "check"), chk, "--tier", meta.get("tier", tier)], env=env, capture_output=True, text=True, timeout=7200)
             with open(os.path.join(ev, chk + ".out"), "w") as f:
                 f.write(p.stdout[-20000:] + "\n--- stderr ---\n" + p.stderr[-5000:])
             lines = [l for l in p.stdout.splitlines() if l.startswith("VIOLATION") or l.startswith("MACHINERY")]
